@@ -149,7 +149,7 @@ def gen_stall_batch(rng, n):
 
 def gen(rng, tier):
     n_api, n_inc, n_rand, n_stall_batches, two_byte = {
-        "quick": (40, 10, 300, 1, True), "thorough": (900, 200, 6000, 6, True), "search": (150, 40, 1500, 2, False)}[tier]
+        "quick": (40, 10, 300, 1, True), "thorough": (3000, 600, 20000, 12, True), "search": (150, 40, 1500, 2, False)}[tier]
     for _ in range(n_api):
         yield gen_api(rng)
     for _ in range(n_inc):
@@ -514,3 +514,4 @@ def run(tier, seed, replay=None):
                                                      time.time() - t_start))
     core.prune_cache()
     return 1 if violations else 0
+FLAVOURS = ("tsan", "asan")
